@@ -88,6 +88,18 @@ class C01(Prop):
             lines.append("sbccat %s %s" % (gen.hexs(data), c))
             lines.append("strm never vec - " + ",".join("a:" + gen.hexs(ch) for ch in gen.apply_cuts(data, cuts) if ch))
         yield "incremental-and-never-stream", lines
+        # the never-colour stream over the REAL stdout / stderr (child process, pipe captured), `.lock()` between two writes:
+        # what arrives is still exactly the visible text of the whole input
+        lines = []
+        for i in range(90 if tier == "thorough" else 30):
+            data = gen.grammar_stream(rng, pieces=rng.choice([2, 3, 5]))
+            if i % 3 == 0:
+                data = list("<<a\x1b[1mb\x1b]0;t\x07\u20acc>>".encode())
+            if not data:
+                continue
+            cut = rng.randrange(0, len(data) + 1)
+            lines.append("lk8 never %s %s %s" % (rng.choice(["out", "err"]), gen.hexs(data[:cut]), gen.hexs(data[cut:])))
+        yield "locked-never-stream", lines
         # partly consumed one-shot iterators: Display / to_string / into_vec / is_empty / extend
         lines = []
         for i in range(n // 2):
@@ -130,4 +142,6 @@ class C01(Prop):
         parts = line.split(" ")
         if parts[0] in ("sbcat", "sscat", "sbccat"):
             return impl != parts[1]
+        if parts[0] == "lk8":
+            return "1b" in parts[3] + parts[4]
         return False
